@@ -642,6 +642,16 @@ def authenticate (srv : SrvSt) (conn : ConnSt) : Bool :=
    | some pw => decide (conn.user = []) && (!conn.hasPass || decide (conn.pass = pw))) &&
   !srv.certAuth
 
+/-- how the AUTH executor decodes its arguments: `AUTH password` or `AUTH user password` -/
+def authCreds (args : List Msg) : Except Err (Bytes × Bytes) :=
+  match nextStringRaw args with
+  | .error e => .error (errMissing b!"password" e)
+  | .ok (first, rest) =>
+    match rest with
+    | [] => .ok ([], first)
+    | .absent :: _ => .ok ([], first)
+    | m :: _ => (match msgStr m with | .ok tok => .ok (first, tok) | .error e => .error e)
+
 def configGetReply (cfg : List (Bytes × Bytes)) (keys : List Bytes) : Msg :=
   .arr (keys.flatMap fun k => [newBulk k, newBulk ((cfg.lookup k).getD [])])
 
@@ -652,19 +662,12 @@ def configSet (cfg : List (Bytes × Bytes)) : List (Bytes × Bytes) → List (By
 /-- the six system executors; they may change the connection and the server configuration -/
 def execSystem (srv : SrvSt) (conn : ConnSt) (ucmd : Bytes) (args : List Msg) : Option (Out × ConnSt × SrvSt) :=
   if ucmd = b!"AUTH" then some <|
-    match nextStringRaw args with
-    | .error e => (.error (errMissing b!"password" e), conn, srv)
-    | .ok (first, rest) =>
-      let creds : Except Err (Bytes × Bytes) := match rest with
-        | [] => .ok ([], first)
-        | .absent :: _ => .ok ([], first)
-        | m :: _ => (match msgStr m with | .ok tok => .ok (first, tok) | .error e => .error e)
-      match creds with
-      | .error e => (.error e, conn, srv)
-      | .ok (user, pass) =>
-        let conn' := { conn with user := user, pass := pass, hasPass := true }
-        if authenticate srv conn' then (.reply okMsg, { conn' with authorized := true }, srv)
-        else (.error { text := b!"authrization failed" }, conn', srv)
+    match authCreds args with
+    | .error e => (.error e, conn, srv)
+    | .ok (user, pass) =>
+      let conn' := { conn with user := user, pass := pass, hasPass := true }
+      if authenticate srv conn' then (.reply okMsg, { conn' with authorized := true }, srv)
+      else (.error { text := b!"authrization failed" }, conn', srv)
   else if ucmd = b!"PING" then some <|
     match args with
     | [] => (.reply (newStatus b!"PONG"), conn, srv)
